@@ -245,9 +245,9 @@ static Wire c07(Reader& r) {
         return in_child([&]{ Wire out;
             ll st = guarded_code([&]{
                 switch (which) {
-                case 0: { Geometry g; g.load("m.geom","Head1.cond"); out.push_back(g.meshes().size()); out.push_back(g.domains().size()); break; }
-                case 1: { Geometry g; g.load("Head1.geom","m.cond"); out.push_back(g.domains().size()); break; }
-                case 2: { Sensors sn("m.squids"); out.push_back(sn.getNumberOfSensors()); break; }
+                case 0: { Geometry g; g.load(std::string("m.geom"),std::string("Head1.cond")); out.push_back(g.meshes().size()); out.push_back(g.domains().size()); break; }
+                case 1: { Geometry g; g.load(std::string("Head1.geom"),std::string("m.cond")); out.push_back(g.domains().size()); break; }
+                case 2: { Sensors sn("m.squids"); out.push_back(sn.getNumberOfPositions()); out.push_back(sn.getNumberOfSensors()); break; }
                 case 3: { Matrix d("m.dip"); out.push_back(d.nlin()); out.push_back(d.ncol()); break; }
                 }
             });
